@@ -374,19 +374,19 @@ theorem typeLook_filter (ts : List Spanned) (h : HeadOk ts) :
     rw [dropTrivia_cons_keep ht]
     simp only [typeLook, typeLoop_filter ts 0]
 
-/-- along the stream, every soft keyword that is examined at the start of a line is followed by a
-    non-trivia token -/
-def SoftSafe : List Spanned → Bool → Prop
+/-- along the stream, every soft keyword that is examined — `match` / `case` at the start of a logical
+    line, `type` at the start of a simple statement — is followed by a non-trivia token -/
+def SoftSafe : List Spanned → SoftSt → Prop
   | [], _ => True
-  | t :: ts, sol =>
-    (sol = true → (t.tok = .kw .Match ∨ t.tok = .kw .Case ∨ t.tok = .kw .Type_) →
-        HeadOk ts) ∧
-    SoftSafe ts (nextSol sol (softTok sol t ts))
+  | t :: ts, st =>
+    (st.sol = true → (t.tok = .kw .Match ∨ t.tok = .kw .Case) → HeadOk ts) ∧
+    (st.sos = true → t.tok = .kw .Type_ → HeadOk ts) ∧
+    SoftSafe ts (st.next (softTok st.sol st.sos t ts))
 
-theorem softTok_filter (sol : Bool) (t : Spanned) (ts : List Spanned)
-    (h : sol = true → (t.tok = .kw .Match ∨ t.tok = .kw .Case ∨ t.tok = .kw .Type_) →
-        HeadOk ts) :
-    softTok sol t (dropTrivia ts) = softTok sol t ts := by
+theorem softTok_filter (sol sos : Bool) (t : Spanned) (ts : List Spanned)
+    (h : sol = true → (t.tok = .kw .Match ∨ t.tok = .kw .Case) → HeadOk ts)
+    (h' : sos = true → t.tok = .kw .Type_ → HeadOk ts) :
+    softTok sol sos t (dropTrivia ts) = softTok sol sos t ts := by
   unfold softTok
   split
   · rename_i hk
@@ -396,55 +396,58 @@ theorem softTok_filter (sol : Bool) (t : Spanned) (ts : List Spanned)
     · simp [hs]
   · rename_i hk
     by_cases hs : sol = true
-    · have := h hs (Or.inr (Or.inl hk))
+    · have := h hs (Or.inr hk)
       simp only [hs, Bool.not_true, Bool.false_eq_true, if_false, matchCaseLook_filter_first ts this]
     · simp [hs]
   · rename_i hk
-    by_cases hs : sol = true
-    · have := h hs (Or.inr (Or.inr hk))
+    by_cases hs : sos = true
+    · have := h' hs hk
       simp only [hs, Bool.not_true, Bool.false_eq_true, if_false, typeLook_filter ts this]
     · simp [hs]
   · rfl
 
-theorem softTok_not_trivia (sol : Bool) (t : Spanned) (ts : List Spanned) (h : t.tok.isTrivia = false) :
-    (softTok sol t ts).isTrivia = false := by
+theorem softTok_not_trivia (sol sos : Bool) (t : Spanned) (ts : List Spanned) (h : t.tok.isTrivia = false) :
+    (softTok sol sos t ts).isTrivia = false := by
   unfold softTok
   split <;> (try (split <;> (try (split <;> simp_all [softToName, Tok.isTrivia])) <;> simp_all [softToName, Tok.isTrivia]))
   exact h
 
-theorem softTok_trivia (sol : Bool) (t : Spanned) (ts : List Spanned) (h : t.tok.isTrivia = true) :
-    softTok sol t ts = t.tok := by
+theorem softTok_trivia (sol sos : Bool) (t : Spanned) (ts : List Spanned) (h : t.tok.isTrivia = true) :
+    softTok sol sos t ts = t.tok := by
   unfold softTok
   split <;> simp_all [Tok.isTrivia]
 
+/-- a trivia token leaves all three state fields of the transformer unchanged -/
+theorem SoftSt.next_trivia (st : SoftSt) (tok : Tok) (h : tok.isTrivia = true) : st.next tok = st := by
+  cases tok <;> simp [Tok.isTrivia] at h <;> simp [SoftSt.next, nextSol, nextSos, nextNesting, Tok.isTrivia]
+
 /-- C10: where the soft-keyword pass commutes with the trivia filter -/
-theorem softkw_commutes_filter_of_safe (ts : List Spanned) (sol : Bool) (h : SoftSafe ts sol) :
-    softKwGo (dropTrivia ts) sol = dropTrivia (softKwGo ts sol) := by
-  induction ts generalizing sol with
+theorem softkw_commutes_filter_of_safe (ts : List Spanned) (st : SoftSt) (h : SoftSafe ts st) :
+    softKwGo (dropTrivia ts) st = dropTrivia (softKwGo ts st) := by
+  induction ts generalizing st with
   | nil => rfl
   | cons t ts ih =>
-    obtain ⟨h1, h2⟩ := h
+    obtain ⟨h1, h1', h2⟩ := h
     by_cases ht : t.tok.isTrivia = true
-    · have e := softTok_trivia sol t ts ht
+    · have e := softTok_trivia st.sol st.sos t ts ht
       rw [dropTrivia_cons_trivia ht]
       simp only [softKwGo]
       rw [e] at h2 ⊢
-      have : nextSol sol t.tok = sol := by simp [nextSol, ht]
-      rw [this] at h2 ⊢
+      rw [SoftSt.next_trivia st t.tok ht] at h2 ⊢
       rw [dropTrivia_cons_trivia (t := { t with tok := t.tok }) ht]
-      exact ih sol h2
+      exact ih st h2
     · have ht' : t.tok.isTrivia = false := by simpa using ht
       rw [dropTrivia_cons_keep ht']
       simp only [softKwGo]
-      rw [softTok_filter sol t ts h1]
-      rw [dropTrivia_cons_keep (t := { t with tok := softTok sol t ts }) (softTok_not_trivia sol t ts ht')]
+      rw [softTok_filter st.sol st.sos t ts h1 h1']
+      rw [dropTrivia_cons_keep (t := { t with tok := softTok st.sol st.sos t ts }) (softTok_not_trivia st.sol st.sos t ts ht')]
       rw [ih _ h2]
 
 
 /-- C10, soft keywords: for a text whose full-lexer stream is `SoftSafe`, both configurations hand the
     same tokens (with the same ranges and the same first error) to the parser -/
 theorem softkw_commutes_filter (up : UParams) (mode : Mode) (k : Nat) (src : List Nat) (oF : LexOut)
-    (hF : lexRaw ⟨true, up⟩ k src = some oF) (hs : SoftSafe oF.toks (mode != .expression)) :
+    (hF : lexRaw ⟨true, up⟩ k src = some oF) (hs : SoftSafe oF.toks (SoftSt.init mode)) :
     lex ⟨false, up⟩ mode k src = (lex ⟨true, up⟩ mode k src).map dropOut := by
   unfold lex
   rw [lexRaw_filter, hF]
@@ -472,7 +475,14 @@ example : ((lex ⟨true, noUnicode⟩ .module 0 failSrc).map (fun o => o.toks.he
 
 /-- the side condition holds for ordinary streams, e.g. `match x : # c` NEWLINE -/
 example : SoftSafe [⟨.kw .Match, 0, 5, 0, 5⟩, ⟨.name [120], 6, 7, 6, 7⟩, ⟨.op .Colon, 7, 8, 7, 8⟩,
-    ⟨.comment [35, 32, 99], 9, 12, 9, 12⟩, ⟨.newline, 12, 13, 12, 13⟩] true := by
-  simp [SoftSafe, HeadOk, Tok.isTrivia]
+    ⟨.comment [35, 32, 99], 9, 12, 9, 12⟩, ⟨.newline, 12, 13, 12, 13⟩] (SoftSt.init .module) := by
+  simp [SoftSafe, HeadOk, Tok.isTrivia, SoftSt.init]
+
+/-- … and for a `type` alias behind a one-line compound header: `if x : type X = y # c` NEWLINE (the
+    `type` token is examined because `start_of_statement` holds after the `:` outside brackets) -/
+example : SoftSafe [⟨.kw .If, 0, 2, 0, 2⟩, ⟨.name [120], 3, 4, 3, 4⟩, ⟨.op .Colon, 4, 5, 4, 5⟩,
+    ⟨.kw .Type_, 6, 10, 6, 10⟩, ⟨.name [88], 11, 12, 11, 12⟩, ⟨.op .Equal, 13, 14, 13, 14⟩, ⟨.name [121], 15, 16, 15, 16⟩,
+    ⟨.comment [35, 32, 99], 17, 20, 17, 20⟩, ⟨.newline, 20, 21, 20, 21⟩] (SoftSt.init .module) := by
+  simp [SoftSafe, HeadOk, Tok.isTrivia, SoftSt.init]
 
 end PV.C10
